@@ -544,7 +544,11 @@ def dumpStr (s : Store) : String :=
   "P" ++ listShow PM.show (sortBy pmLt s.pms) ++
   "W" ++ listShow Welcome.show (sortBy (fun a b => a.id < b.id) s.welcomes) ++
   "Q" ++ listShow PW.show (sortBy (fun a b => a.wrapper < b.wrapper) s.pws) ++
-  "X" ++ listShow (fun (t : Nat × Nat × Nat) => s!"{t.1}.{t.2.1}={t.2.2}") (sortBy tripleLt s.mls)
+  "X" ++ listShow (fun (t : Nat × Nat × Nat) => s!"{t.1}.{t.2.1}={t.2.2}") (sortBy tripleLt s.mls) ++
+  -- the by-nostr-id lookup for every id of the pool (10..16): which group answers, if any
+  "I" ++ listShow (fun (n : Nat) => match findGroupNostr s n with
+      | some g => s!"{n}>{g.gid}.{g.epoch}.{g.nameLen}"
+      | none => s!"{n}>-") [10, 11, 12, 13, 14, 15, 16]
 
 def okErr (o : Option Store) (s : Store) : Store × String :=
   match o with
